@@ -70,6 +70,8 @@ def run(ctx):
         cases.append(("gen:%d:base" % i, c.text(), "m.emb", None, c, {}))
         for v in gt.c14_cases(base, ctx.rng):
             cases.append(("gen:%d:%s" % (i, v.rule), v.text(), "m.emb", None, v, {}))
+    for k, v in enumerate(gt.default_scope_cases(ctx.rng, n=(24 if ctx.thorough() else 9))):
+        cases.append(("scope:%d:%s" % (k, v.rule), v.text(), "m.emb", None, v, {}))
     order = sorted(range(len(cases)), key=lambda i: -len(cases[i][1]))
     pool = multiprocessing.Pool(min(fw.NPROC, 16))
     pending = pool.map_async(tx.analyse_c14, [(cases[i][1], cases[i][2], cases[i][3], fw.REPO) for i in order], chunksize=1)
@@ -114,8 +116,16 @@ def run(ctx):
         ctx.violation(key, desc, replay, found_input=found)
 
     coq_cases = []
+    base_bad = set()
+    for (label, text, name, extra, case, exp), an in zip(cases, results):
+        if label.startswith("gen:") and label.endswith(":base") and an["full"][0] != "ok":
+            base_bad.add(label.split(":")[1])
     for (label, text, name, extra, case, exp), an in zip(cases, results):
         full_st, full_detail = an["full"]
+        if label.startswith("gen:") and not label.endswith(":base") and label.split(":")[1] in base_bad:
+            # the base itself is rejected (reported once, with the base): its variants say nothing new
+            ctx.count("skipped:variant-of-rejected-base")
+            continue
         ctx.count("compiler:" + full_st)
         rule = case.rule if case is not None else exp.get("rule")
         replay = dict(kind="module", label=label, file=name, module=text, rule=rule,
@@ -154,14 +164,16 @@ def run(ctx):
             ctx.count("skipped:rejected-only-by-unmodelled-check")
             continue
         verdict = (lv == "accept")
-        coq_cases.append((an["coq"], "(%s, true)" % ("true" if verdict else "false"),
+        bs = an.get("borders")
+        ctx.count("effective-byte-orders-compared" if bs else "effective-byte-orders-not-available")
+        coq_cases.append((an["coq"], "(LExpect %s true %s)" % ("true" if verdict else "false", "(Some %s)" % bs if bs else "None"),
                           dict(label=label, text=text, rule=rule, an=an, case=case)))
         if case is not None and lv in ("accept", "reject") and verdict != case.doc_realisable and full_st != "crash":
             pass   # already reported above as a property violation with the concrete module
 
-    r = fw.CoqCases(ctx, "layout", hdr, "(run_layout2 T_run)", "pair_bool_eqb", "module", "(bool * bool)", shard=20)
+    r = fw.CoqCases(ctx, "layout", hdr, "(run_layout3 T_run)", "lout_agrees", "module", "lout", shard=20)
     bad = r.run(coq_cases) if coq_cases else []
-    ctx.obligation("correspondence: %d modules: check_layout(T_run) = compiler's verdict on the modelled rules" % len(coq_cases), not bad)
+    ctx.obligation("correspondence: %d modules: check_layout(T_run) = compiler's verdict on the modelled rules, effective_border of every field = byte_order attribute after normalisation" % len(coq_cases), not bad)
     shown = 0
     for idx, out in bad:
         a, b, obj = coq_cases[idx]
@@ -169,6 +181,16 @@ def run(ctx):
         full_st = obj["an"]["full"][0]
         # the concrete module is in hand: if the property itself fails on it, it has been reported above
         if case is not None and ((case.doc_realisable and full_st != "ok") or (not case.doc_realisable and full_st != "errors")):
+            continue
+        vtxt = "true" if obj["an"]["layout"][0] == "accept" else "false"
+        if obj["an"].get("borders") and ("LModel %s true" % vtxt) in " ".join(out.split()):
+            # same verdict, different byte orders: by theorem defaults_inherited the model's value IS the nearest
+            # enclosing $default, so the front end gave some field another byte order: a concrete failing module
+            ctx.violation("byte-order-not-nearest-enclosing-default",
+                          "%s: byte_order attributes after normalisation differ from own / nearest enclosing $default / Null" % obj["label"],
+                          dict(kind="module", module=obj["text"], rule=obj["rule"], theorem="defaults_inherited",
+                               front_end_byte_orders=obj["an"]["borders"], model_outputs=out[:3000]), found_input=True)
+            shown += 1
             continue
         ctx.violation("layout-model-mismatch", "model and compiler disagree on %s (compiler: %s)" % (obj["label"], b),
                       dict(kind="module", correspondence="Layout.Model.check_layout vs normalize_and_verify+check_constraints",
